@@ -46,6 +46,7 @@ class Run:
         self.prop, self.tier = prop, tier
         self.obs = []
         self.notes = []
+        self.errors = []
         self.rules_applied = {}       # rule -> one-line statement of what it decides
         self.counters = {'functions': 0, 'call_sites': 0, 'paths': 0, 'cases': 0}
         self.trusted = set()
